@@ -177,6 +177,42 @@ func rulePos(c *Ctx) {
 				c.bad(fnName(g), det+": dataPos comes from the write loop", c.P.ipos(h), "Hint.dataPos is not the offset variable of the commit write loop")
 				continue
 			}
+			// the write helper may hand back the offset it wrote at: off, err := tx.appendToActiveFile(...)
+			if ex, isEx := posVal.(*ssa.Extract); isEx && helper != nil && ex.Tuple == ssa.Value(wl.encode) {
+				rets := returnsOf(helper)
+				okRet := len(rets) > 0
+				for _, r := range rets {
+					if ex.Index >= len(r.Results) {
+						okRet = false
+						continue
+					}
+					for _, hv := range resolve(r.Results[ex.Index]) {
+						if k, isC := constInt(hv); isC && (k == 0 || k == -1) && classifyRetOperand(r, errResultIndex(helper)) == retNonNil {
+							continue // error exits return a dummy offset
+						}
+						hi, _ := hv.(ssa.Instruction)
+						if !(isFieldLoad(hv, "DataFile", "writeOff") && relPath(hv) == relPath(offArg)) || hi == nil ||
+							interveningWrite(c, helper, hi, writeAt, locs, nil) != nil {
+							okRet = false
+						}
+					}
+				}
+				c.check(okRet, fnName(g), det+": dataPos is the offset the record was written at", c.P.ipos(h),
+					"the write helper returns the write offset it read before writing", "Hint.dataPos is the result of the write helper, which does not return the offset passed to WriteAt")
+				// fileID and rotation are judged below relative to the helper call
+				fid := resolve1(fs["fileID"])
+				okF := isFieldLoad(fid, "DataFile", "fileID") && func() bool { _, b := lastField(fid); return isFieldLoad(b, "DB", "ActiveFile") }()
+				c.check(okF, fnName(g), det+": fileID is the active file's id", c.P.ipos(h), "", "Hint.fileID is not read from DB.ActiveFile.fileID")
+				if okF && idxCall != nil {
+					bad := interveningWrite(c, f, writeEv, idxCall, map[string]bool{"DB.ActiveFile": true, "DataFile.fileID": true}, incr)
+					msg := ""
+					if bad != nil {
+						msg = "between writing the record and indexing it, " + c.P.ipos(bad) + " may switch the active file: the hint would name another segment"
+					}
+					c.check(bad == nil, fnName(g), det+": no rotation between writing and indexing", c.P.ipos(h), "", msg)
+				}
+				continue
+			}
 			same := isFieldLoad(posVal, "DataFile", "writeOff") && relPath(posVal) == relPath(offArg)
 			c.check(same, fnName(g), det+": dataPos is the offset the record was written at", c.P.ipos(h),
 				"Hint.dataPos and the WriteAt offset are reads of the same location "+dispPath(offArg), "Hint.dataPos ("+dispPath(posVal)+") is not the location passed to WriteAt ("+dispPath(offArg)+")")
@@ -394,5 +430,35 @@ func ruleUpdateRecord(c *Ctx) {
 			okb = hp && ep && namedIs(cc.Args[1].Type(), "Hint") && namedIs(cc.Args[2].Type(), "Entry")
 		}
 	})
+	if !okb {
+		// the key-exists path may live in a helper that is handed Insert's own hint and entry
+		calls(ins, func(ci ssa.CallInstruction) {
+			h := ci.Common().StaticCallee()
+			if okb || h == nil || !c.P.inModule(h) || h.Blocks == nil {
+				return
+			}
+			calls(h, func(cj ssa.CallInstruction) {
+				cc := cj.Common()
+				if !calleeIs(cc, modPath, "Record", "UpdateRecord") {
+					return
+				}
+				hp, ok1 := resolve1(cc.Args[1]).(*ssa.Parameter)
+				ep, ok2 := resolve1(cc.Args[2]).(*ssa.Parameter)
+				if !ok1 || !ok2 || !namedIs(cc.Args[1].Type(), "Hint") || !namedIs(cc.Args[2].Type(), "Entry") {
+					return
+				}
+				hi, ei := paramIndex(h, hp), paramIndex(h, ep)
+				args := ci.Common().Args
+				if hi < len(args) && ei < len(args) {
+					_, a1 := resolve1(args[hi]).(*ssa.Parameter)
+					_, a2 := resolve1(args[ei]).(*ssa.Parameter)
+					if a1 && a2 {
+						okb = true
+						c.touch(h)
+					}
+				}
+			})
+		})
+	}
 	c.check(okb, fnName(ins), "existing key is overwritten with the new hint and entry", c.P.pos(ins.Pos()), "", "Insert does not update an existing record with the hint and entry it was given")
 }
